@@ -221,6 +221,9 @@ def run(tier):
     ck.rule("E7.voxel-point-dependence", "voxel assembly kernels (poisson / defo / burgers matrix and defect, host-generic path): in one step of the cubature loop every datum entering the accumulation is computed at the CURRENT cubature point: the determinant factor is det of the Jacobian from calc_jac_mat(cub_pt[k]), the transformed gradients come from eval_ref_gradients(cub_pt[k]) and trans_gradients with the inverse of that same Jacobian, values from eval_ref_values(cub_pt[k]); a Jacobian evaluated outside the loop (e.g. at the cell centre) is exact on parallelogram cells only, the Standard trafo is multilinear", 6)
     ck.rule("E7.voxel-weight-once", "voxel assembly kernels: every term accumulated into the local matrix/vector in the cubature loop carries exactly one factor det(J(cub_pt[k])) and exactly one factor cub_wg[k] of the same loop index k", 6)
 
+    ck.rule("E7.guarded-def-use", "Burgers assemblers / jobs / voxel kernels: a local (or task member) that is recomputed per cubature point under a guard G_w (format()/assignment inside the point loop resp. in prepare_point()) is read afterwards only under guards G_r with G_r => G_w (propositional over the switch flags, const bool locals resolved through their initialisers); otherwise, for a parameter set with G_r and not G_w, the term is assembled from a stale/zero value", 23)
+    ck.rule("E7.output-cleared", "assemblers that scatter into caller matrices: an output that the function clears with format() at all is cleared on EVERY path from entry to the scatter loop, all outputs of one function are treated alike, and functions documented to assemble (not add) clear their outputs; otherwise a re-assembly adds onto the old content", 11)
+
     facts = featlib.extract("tu/c16_assembly.cpp", files=FILES)
     ck.tu(facts)
     for e in facts.errors_outside_repo():
@@ -233,6 +236,22 @@ def run(tier):
     check_scatter(ck, facts, tier)
     check_symbolic(ck, facts, tier)
     check_voxel(ck, tier)
+    facts_b = featlib.extract("tu/c16_burgers.cpp", files=BURGERS_FILES)
+    ck.tu(facts_b)
+    for e in facts_b.errors_outside_repo():
+        ck.incomplete("E7.guarded-def-use", "driver tu/c16_burgers.cpp no longer matches the API: %s:%d %s" % (e["file"], e["line"], e["msg"]))
+    for e in facts_b.errors_in_repo():
+        ck.ob("E7.guarded-def-use", "E0/%s/%s" % (rel(e["file"]), re.sub(r"\d+", "N", e["msg"])[:80]), False, "front-end error %s:%d %s" % (rel(e["file"]), e["line"], e["msg"]), e["file"], e["line"])
+    named = [("classic", facts_b, lambda f: "burgers_assembler.hpp" in f.file and f.name.startswith("assemble")),
+             ("job", facts_b, lambda f: "burgers_assembly_job.hpp" in f.file and f.name in ("prepare", "prepare_point", "assemble", "assemble_burgers_point", "assemble_matrix_point", "assemble_vector_point", "scatter"))]
+    try:
+        facts_v = featlib.extract(F(VOXEL_TUS["burgers"]), files=VOXEL_FILES)
+        named.append(("voxel", facts_v, lambda f: f.name.endswith("_assembly_kernel") and "Hypercube<2>" in f.full and ", double, " in f.full))
+    except featlib.AnalysisBroken as e:
+        ck.incomplete("E7.guarded-def-use", str(e))
+    check_guarded_defuse(ck, named, tier)
+    check_outputs_cleared(ck, facts_b, tier)
+    check_outputs_cleared(ck, facts, tier)
     if tier == "thorough":
         # breadth: the same rules on the float instantiation of every template (same keys; the detail names the instantiation)
         facts_f = featlib.extract("tu/c16_assembly.cpp", files=FILES, extra=("-DC16_DT=float",))
@@ -1232,3 +1251,365 @@ def analyse_voxel_kernel(ck, facts, f, key, fields, flags):
         ck.incomplete("E7.voxel-weight-once", "%s: %s" % (key, "; ".join(wunk[:2]) or "no determinant factor recognised"))
         return
     ck.ob("E7.voxel-weight-once", key, not wprob, "; ".join(wprob[:2]) if wprob else "every term carries det(J(cub_pt[k])) * cub_wg[k] once", f.file, f.line)
+
+
+# -------------------------------------------------------------------------------------------------
+# guarded definition / use of per-point locals (Burgers assemblers, jobs, voxel kernels) and clearing of outputs
+# -------------------------------------------------------------------------------------------------
+
+BURGERS_FILES = "|".join([F("kernel/assembly/burgers_assembler.hpp"), F("kernel/assembly/burgers_assembly_job.hpp"),
+                          F("kernel/assembly/gpdv_assembler.hpp"), F("kernel/assembly/grad_operator_assembler.hpp")])
+
+
+class _Guards:
+    """propositional guards over rendered atoms; const bool locals are resolved through their initialisers"""
+
+    def __init__(self, fn):
+        self.fn = fn
+        self.inits = {}
+        for n in fn.nodes():
+            if n.get("k") == "Var" and n.get("init") is not None and "bool" in fn.type(n.get("t")):
+                self.inits[n["d"]] = n["init"]
+
+    def formula(self, n, depth=0):
+        k = n.get("k")
+        if k == "Bool":
+            return ("const", bool(n["v"]))
+        if k == "Un" and n.get("op") == "!":
+            return ("not", self.formula(n["e"], depth))
+        if k == "Bin" and n.get("op") in ("&&", "||"):
+            return ("and" if n["op"] == "&&" else "or", self.formula(n["lhs"], depth), self.formula(n["rhs"], depth))
+        if k == "Ref" and n.get("d") in self.inits and depth < 6:
+            return self.formula(self.inits[n["d"]], depth + 1)
+        names = sorted({(x.get("n") or "") for x in walk(n) if x.get("k") in ("Ref", "Member")})
+        flag = k in ("Ref", "Member")
+        return ("atom", featlib.render(n).replace("this->", ""), tuple(names), flag)
+
+    @staticmethod
+    def atoms(f, out):
+        if f[0] == "atom":
+            out[f[1]] = f
+        elif f[0] in ("and", "or"):
+            _Guards.atoms(f[1], out)
+            _Guards.atoms(f[2], out)
+        elif f[0] == "not":
+            _Guards.atoms(f[1], out)
+        return out
+
+    @staticmethod
+    def ev(f, env):
+        t = f[0]
+        if t == "const":
+            return f[1]
+        if t == "atom":
+            return env[f[1]]
+        if t == "not":
+            return not _Guards.ev(f[1], env)
+        a, b = _Guards.ev(f[1], env), _Guards.ev(f[2], env)
+        return (a and b) if t == "and" else (a or b)
+
+    @staticmethod
+    def conj(fs):
+        r = ("const", True)
+        for f in fs:
+            r = ("and", r, f)
+        return r
+
+    @staticmethod
+    def implies(gr, gws):
+        """(counterexample or None, related_atoms?)  for  gr => OR(gws)"""
+        at = {}
+        _Guards.atoms(gr, at)
+        for g in gws:
+            _Guards.atoms(g, at)
+        names = sorted(at)
+        if len(names) > 14:
+            return None, True
+        related = False
+        comps = [a for a in at.values() if not a[3]]
+        for i, a in enumerate(comps):
+            for b in comps[i + 1:]:
+                if set(a[2]) & set(b[2]):
+                    related = True
+        for bits in itertools.product((False, True), repeat=len(names)):
+            env = dict(zip(names, bits))
+            if _Guards.ev(gr, env) and not any(_Guards.ev(g, env) for g in gws):
+                return env, related
+        return None, related
+
+    @staticmethod
+    def show(f):
+        t = f[0]
+        if t == "const":
+            return "true" if f[1] else "false"
+        if t == "atom":
+            return f[1]
+        if t == "not":
+            return "!(%s)" % _Guards.show(f[1])
+        a, b = _Guards.show(f[1]), _Guards.show(f[2])
+        if a == "true":
+            return b
+        if b == "true":
+            return a
+        return "(%s %s %s)" % (a, "&&" if t == "and" else "||", b)
+
+
+def _varkey(n):
+    if n.get("k") == "Ref" and n.get("dk") in ("local", "param"):
+        return ("l", n.get("d"), n.get("n"))
+    if n.get("k") == "Member" and (n.get("b") or {}).get("k") == "This" and n.get("field"):
+        return ("m", n.get("n"), n.get("n"))
+    return None
+
+
+def _root_var(n):
+    """variable at the root of an lvalue expression v, v[i], v(i,j), v.member ..."""
+    while n is not None:
+        k = _varkey(n)
+        if k is not None:
+            return k, n
+        if n.get("k") == "Index":
+            n = n.get("b")
+        elif n.get("k") == "Member":
+            n = n.get("b")
+        elif n.get("k") == "OpCall" and n.get("op") in ("[]", "()") and n.get("a"):
+            n = n["a"][0]
+        elif n.get("k") == "Cast":
+            n = n.get("e")
+        else:
+            return None, None
+    return None, None
+
+
+def collect_defuse(fn):
+    """kills / reads of variables with their guards.  -> (kills, reads) lists of dicts
+    {var, guard (list of formulas between the region loop and the site), region (id of the loop node or 0), order, line, whole}"""
+    G = _Guards(fn)
+    kills, reads = [], []
+    counter = [0]
+    kill_targets = set()
+    decl_stack = {}
+
+    def visit(n, stack):
+        """stack: list of ('if', formula) / ('loop', node id)"""
+        if n is None or not isinstance(n, dict):
+            return
+        counter[0] += 1
+        order = counter[0]
+        k = n.get("k")
+        if k == "If":
+            visit(n.get("init"), stack)
+            visit(n.get("c"), stack)
+            f = G.formula(n["c"])
+            visit(n.get("then"), stack + [("if", f)])
+            if n.get("else") is not None:
+                visit(n["else"], stack + [("if", ("not", f))])
+            return
+        if k in ("For", "While", "Do", "ForRange"):
+            visit(n.get("init"), stack)
+            st2 = stack + [("loop", n.get("i"))]
+            for key in ("c", "inc", "var", "range", "body"):
+                visit(n.get(key), st2)
+            return
+        if k == "Bin" and n.get("op") in ("&&", "||"):
+            # short-circuit evaluation guards the right operand
+            f = G.formula(n["lhs"])
+            visit(n["lhs"], stack)
+            visit(n["rhs"], stack + [("if", f if n["op"] == "&&" else ("not", f))])
+            return
+        if k == "Cond":
+            f = G.formula(n["c"])
+            visit(n["c"], stack)
+            visit(n.get("then"), stack + [("if", f)])
+            visit(n.get("else"), stack + [("if", ("not", f))])
+            return
+        if k == "Var":
+            decl_stack[n.get("d")] = list(stack)
+        if k == "Var" and n.get("init") is not None and not n.get("ref"):
+            # a declaration with initialiser defines the variable
+            kills.append({"var": ("l", n.get("d"), n.get("n")), "stack": list(stack), "order": order, "line": n.get("l"), "whole": True})
+        # kill sites
+        tgt = None
+        whole = False
+        if k == "MCall" and n.get("n") == "format":
+            tgt, node = _root_var(n.get("obj"))
+            whole = tgt is not None and _varkey(n.get("obj")) is not None
+        elif k == "Assign" and n.get("op") == "=":
+            tgt, node = _root_var(n.get("lhs"))
+            whole = True
+        elif k == "OpCall" and n.get("op") == "=" and n.get("a"):
+            tgt, node = _root_var(n["a"][0])
+            whole = True
+        if tgt is not None:
+            kill_targets.add(id(node))
+            kills.append({"var": tgt, "stack": list(stack), "order": order, "line": n.get("l"), "whole": whole})
+        vk = _varkey(n)
+        if vk is not None and id(n) not in kill_targets:
+            reads.append({"var": vk, "stack": list(stack), "order": order, "line": n.get("l")})
+        for c in featlib.children(n):
+            visit(c, stack)
+
+    visit(fn.body, [])
+
+    def region_of_kill(stack):
+        """skip inner loops up to the first if; collect ifs; stop at the next loop"""
+        i = len(stack) - 1
+        while i >= 0 and stack[i][0] == "loop":
+            i -= 1
+        guard = []
+        while i >= 0 and stack[i][0] == "if":
+            guard.insert(0, stack[i][1])
+            i -= 1
+        # ifs further out but inside the same loop nest level are part of the guard as well
+        region = 0
+        j = i
+        while j >= 0:
+            if stack[j][0] == "loop":
+                region = stack[j][1]
+                break
+            j -= 1
+        # ifs between region loop and position i (there can be interleaved loops): collect all ifs after the region loop
+        guard = [s[1] for s in stack[(j + 1 if j >= 0 else 0):] if s[0] == "if"]
+        return region, guard, (j + 1 if j >= 0 else 0)
+
+    for kl in kills:
+        kl["region"], kl["guard"], kl["depth"] = region_of_kill(kl["stack"])
+    G.decl_stack = decl_stack
+    return kills, reads, G
+
+
+def check_guarded_defuse(ck, facts_list_named, tier):
+    """facts_list_named: [(label, facts, function filter)]"""
+    for label, facts, want in facts_list_named:
+        # cross-method: member kills in prepare_point
+        member_kills = {}
+        fns = [f for f in facts.functions if f.tk != "pattern" and want(f)]
+        seen_fn = set()
+        analysed = []
+        for f in sorted(fns, key=lambda f: f.full):
+            sig = (symex.strip_targs(f.cls), f.name, len(f.params))
+            if sig in seen_fn:
+                continue
+            seen_fn.add(sig)
+            kills, reads, G = collect_defuse(f)
+            analysed.append((f, kills, reads, G))
+            if f.name == "prepare_point":
+                for kl in kills:
+                    if kl["var"][0] == "m":
+                        member_kills.setdefault(kl["var"][1], []).append((f, kl, [s[1] for s in kl["stack"] if s[0] == "if"]))
+        for f, kills, reads, G in analysed:
+            short = "%s::%s" % (symex.strip_targs(f.cls).rsplit("::", 1)[-1] if f.cls else symex.strip_targs(f.qn).rsplit("::", 2)[-2], f.name) if f.cls else f.name
+            byvar = {}
+            for kl in kills:
+                byvar.setdefault(kl["var"], []).append(kl)
+            for var, kls in sorted(byvar.items(), key=lambda kv: str(kv[0])):
+                cond = [kl for kl in kls if kl["guard"]]
+                if not cond:
+                    continue
+                regions = sorted({kl["region"] for kl in cond})
+                for reg in regions:
+                    rk = [kl for kl in kls if kl["region"] == reg]
+                    if not any(kl["guard"] for kl in rk):
+                        continue
+                    if var[0] == "l":
+                        ds = G.decl_stack.get(var[1])
+                        # block-scoped temporaries declared inside the region / under a guard are defined where they are declared
+                        if ds is not None and ((reg != 0 and ("loop", reg) in ds) or (reg == 0 and any(x[0] == "if" for x in ds))):
+                            continue
+                    depth = rk[0]["depth"]
+                    problems, unknown = [], []
+                    nreads = 0
+                    for rd in reads:
+                        if rd["var"] != var:
+                            continue
+                        # inside the same region?
+                        st = rd["stack"]
+                        if reg != 0 and ("loop", reg) not in st:
+                            continue
+                        pos = (st.index(("loop", reg)) + 1) if reg != 0 else 0
+                        before = [kl for kl in rk if kl["order"] < rd["order"]]
+                        if not before:
+                            continue
+                        nreads += 1
+                        gr = _Guards.conj([s[1] for s in st[pos:] if s[0] == "if"])
+                        gws = [_Guards.conj(kl["guard"]) for kl in before]
+                        cex, related = _Guards.implies(gr, gws)
+                        if cex is not None:
+                            msg = "%s is read at line %s under %s but (re)computed only under %s: for %s it holds a stale value" % (
+                                var[2], rd["line"], _Guards.show(gr), " || ".join(_Guards.show(g) for g in gws),
+                                ", ".join("%s=%s" % (k, "true" if v else "false") for k, v in sorted(cex.items())))
+                            (unknown if related else problems).append(msg)
+                    if nreads:
+                        _finish(ck, "E7.guarded-def-use", "%s/%s/%s" % (label, short, var[2]), problems, unknown,
+                                "%d reads are dominated by a (re)computation under an implied guard" % nreads, f.file, rk[0]["line"])
+            # cross-method reads of members recomputed in prepare_point
+            if f.name != "prepare_point" and member_kills:
+                done = set()
+                for rd in reads:
+                    if rd["var"][0] != "m" or rd["var"][1] not in member_kills:
+                        continue
+                    mk = member_kills[rd["var"][1]]
+                    if any(not g for (_, _, g) in mk):
+                        continue     # unconditionally recomputed
+                    gr = _Guards.conj([s[1] for s in rd["stack"] if s[0] == "if"])
+                    gws = [_Guards.conj(g) for (_, _, g) in mk]
+                    cex, related = _Guards.implies(gr, gws)
+                    key = "%s/%s/%s<-prepare_point" % (label, short, rd["var"][2])
+                    if key in done and cex is None:
+                        continue
+                    done.add(key)
+                    if cex is not None:
+                        msg = "member %s is read at line %s under %s but prepare_point() recomputes it only under %s (counterexample %s)" % (
+                            rd["var"][2], rd["line"], _Guards.show(gr), " || ".join(_Guards.show(g) for g in gws), ", ".join("%s=%s" % (k, "true" if v else "false") for k, v in sorted(cex.items())))
+                        _finish(ck, "E7.guarded-def-use", key, [] if related else [msg], [msg] if related else [], "", f.file, rd["line"])
+                    else:
+                        _finish(ck, "E7.guarded-def-use", key, [], [], "read guard implies the guard of the recomputation in prepare_point()", f.file, rd["line"])
+
+
+def check_outputs_cleared(ck, facts, tier):
+    """E7.output-cleared"""
+    # documentation: these entry points ASSEMBLE (overwrite) their outputs; the generic operator/functional assemblers ADD (alpha-scaled)
+    MUST_CLEAR = {"FEAT::Assembly::GradPresDivVeloAssembler::assemble": ("kernel/assembly/gpdv_assembler.hpp", "Assembles the B and D matrices"),
+                  "FEAT::Assembly::GradOperatorAssembler::assemble": ("kernel/assembly/grad_operator_assembler.hpp", "Assembles")}
+    seen = set()
+    for f in sorted(facts.functions, key=lambda f: f.full):
+        if f.tk == "pattern" or f.cfg is None or "/kernel/assembly/" not in f.file:
+            continue
+        scat = []
+        for n in f.nodes():
+            if n.get("k") == "Var" and (n.get("init") or {}).get("k") in ("Construct", "TempObj") and "ScatterAxpy::ScatterAxpy" in (n["init"].get("callee") or ""):
+                a = n["init"].get("a", [])
+                if len(a) == 1 and a[0].get("k") == "Ref" and a[0].get("dk") == "param":
+                    scat.append((a[0]["d"], a[0]["n"], n["init"]))
+        if not scat:
+            continue
+        qn = symex.strip_targs(f.qn)
+        key0 = "%s/%d" % (qn.replace("FEAT::Assembly::", ""), len(f.params))
+        if key0 in seen:
+            continue
+        seen.add(key0)
+        status = {}
+        for d, name, ctor in scat:
+            fmts = [n for n in f.nodes() if n.get("k") == "MCall" and n.get("n") == "format" and (n.get("obj") or {}).get("k") == "Ref" and n["obj"].get("d") == d]
+            wb = f.cfg.block_of(ctor.get("i"))
+            if wb is None:
+                # the constructor expression itself is not a CFG element: use the enclosing declaration's first element
+                status[name] = ("?", fmts)
+                continue
+            ok, bad = f.cfg.must_pass(lambda s, d=d: s.get("k") == "MCall" and s.get("n") == "format" and (s.get("obj") or {}).get("k") == "Ref" and s["obj"].get("d") == d, target_blocks=[wb[0]])
+            status[name] = ("all" if ok else ("some" if fmts else "none"), fmts)
+        for name, (st, fmts) in sorted(status.items()):
+            key = "%s/%s" % (key0, name)
+            if st == "?":
+                ck.incomplete("E7.output-cleared", "%s: ScatterAxpy construction not found in the CFG" % key)
+                continue
+            others = {s for n2, (s, _) in status.items() if n2 != name}
+            doc = MUST_CLEAR.get(qn)
+            problems = []
+            if st == "some":
+                problems.append("%s.format() (line %s) is executed on some paths to the scatter loop only: on the other paths the cell loop adds onto stale values" % (name, fmts[0].get("l")))
+            if st != "all" and "all" in others:
+                problems.append("%s is not cleared on every path although the sibling output of the same function is" % name)
+            if st == "none" and doc is not None:
+                problems.append("%s is never cleared although the function is documented to assemble (not to add onto) its outputs" % name)
+            ck.ob("E7.output-cleared", key, not problems, "; ".join(sorted(set(problems))) if problems else ("cleared by format() on every path to the scatter loop" if st == "all" else "accumulating assembler: no output of this function is cleared (alpha-scaled add)"), f.file, f.line)
